@@ -553,11 +553,16 @@ func (c *ctx) evaluate(k kase, ref *reference, peeks []*inspectRec, preCommits [
 		add("query-panic", "application-query", head(d.QueryPanics[0], 300))
 	}
 	if ref != nil && ref.Dump != d && len(missing) == 0 {
+		var diffs []string
 		for _, f := range diffApp(ref.Dump.App, d.App) {
-			add("application-state-differs", f.field, fmt.Sprintf("%s: uncrashed run %s, recovered node %s", f.name, f.want, f.got), "what", f.field)
+			diffs = append(diffs, fmt.Sprintf("%s: uncrashed run %s, recovered node %s", f.name, f.want, f.got))
 		}
 		if !equalStrings(powers(ref.Dump.Validators), powers(d.Validators)) {
-			add("application-state-differs", "validators", fmt.Sprintf("voting powers of the validator set: uncrashed run %v, recovered node %v", powers(ref.Dump.Validators), powers(d.Validators)), "what", "validators")
+			diffs = append(diffs, fmt.Sprintf("voting powers of the validator set: uncrashed run %v, recovered node %v", powers(ref.Dump.Validators), powers(d.Validators)))
+		}
+		if len(diffs) > 0 {
+			// one class whatever the fields: a committed transaction was not applied exactly once
+			add("application-state-differs", "application-query", fmt.Sprintf("%d differences; %s", len(diffs), head(strings.Join(diffs, "; "), 700)))
 		}
 	}
 	if !equalStrings(d.Validators, in.StateVals) {
@@ -594,7 +599,14 @@ func (c *ctx) evaluate(k kase, ref *reference, peeks []*inspectRec, preCommits [
 			if rxLife != nil {
 				extra = fmt.Sprintf("; with the application re-opened after heights %v: %d mismatches %s", rxLife.Lifetimes, len(rxLife.Mismatches), rxLife.Error)
 			}
-			add("recorded-hash-not-reproduced", strings.Join(fl, "+"), fmt.Sprintf("%d hashes; first: %s of height %d (%s): recorded %s, re-executed %s%s", len(rx.Mismatches), m.Field, m.Height, m.Where, m.Want, m.Got, extra), "where", m.Where)
+			site := "ReceiptsHash"
+			for _, f := range []string{"AppHash", "ValidatorsHash", "LastBlockID"} {
+				if fields[f] {
+					site = f
+					break
+				}
+			}
+			add("recorded-hash-not-reproduced", site, fmt.Sprintf("fields %s; "+"%d hashes; first: %s of height %d (%s): recorded %s, re-executed %s%s", strings.Join(fl, "+"), len(rx.Mismatches), m.Field, m.Height, m.Where, m.Want, m.Got, extra))
 		}
 	}
 	return dedupe(vs)
